@@ -64,6 +64,7 @@ def _make():
         "reduce_angc_ylm": (_wrap(c05.h_angc_ylm), dict(nrad=2, nw=(2, 3), nlm=4, nalpha=2, stride=3, offset=1), "dft"),
         "contract_rad_orb": (_wrap(c05.h_rad_orb), dict(nalpha=2, stride=3, offset=1), "dft"),
         "project_spline": (_wrap(c05.h_project_spline), {}, "dft"),
+        "fill_l1_coeff": (_wrap(c05.h_fill_l1), {}, "dft"),
         "multiply_atc_integrals": (_wrap(c05.h_atc_integrals), dict(vk=False), "dft"),
         "multiply_atc_integrals_vk": (_wrap(c05.h_atc_integrals), dict(vk=True), "dft"),
         "fft_copies_r2c_inplace": (_wrap(c20.h_fft), dict(dims=(2, 3), nt=2, fwd=True, r2c=True, inplace=True, bf=False), "fft"),
